@@ -1032,8 +1032,14 @@ class PDFType1Font(PDFSimpleFont):
         try:
             (descriptor, int_widths) = FontMetricsDB.get_metrics(self.basefont)
             widths = cast(
-                Dict[Union[str, int], float], int_widths
+                Dict[Union[str, int], float], dict(int_widths)
             )  # implicit int->float
+            if "Widths" in spec:
+                # Widths of the font dictionary take precedence over the
+                # built-in metrics (which are looked up by character).
+                firstchar = int_value(spec.get("FirstChar", 0))
+                for i, w in enumerate(list_value(spec["Widths"])):
+                    widths[i + firstchar] = resolve1(w)
         except KeyError:
             descriptor = dict_value(spec.get("FontDescriptor", {}))
             firstchar = int_value(spec.get("FirstChar", 0))
